@@ -18,7 +18,11 @@ META = dict(
           "special literal (true/false, nan, [+-]inf[inity]) or a valid literal followed by nothing but white space; "
           "special literals are decided before the stream and give NaN/+-Inf/true/false; character level: "
           "trimWhiteSpace/toLower/cleanUp leave no leading/trailing blank and no upper-case letter (loop contracts). "
-          "Value-exact round trips (printf/strtod, Serialize, XML) are not decided."),
+          "Value-exact round trips (printf/strtod, Serialize, the XML reader) are not decided. "
+          "XML writer, escaping side (checks/part_c32_xml.py): TiXmlBase::EncodeString (two loops under loop contracts, any length), TiXmlAttribute::Print and the "
+          "non-CDATA text printers, cut from tinyxml.cpp each run: the output is the ghost-indexed concatenation of enc(c_i), has no raw < > (nor a raw quote unless "
+          "keepQuotes), every & starts one of the five entities or &#xHH; of a control character, the attribute value text never contains its delimiter unescaped; "
+          "units xml.strict.* state this without the exception for the hexadecimal pass-through branch."),
     note=("Assumed: the abstract stream contract (operator>> consumes the longest valid prefix, fail() iff none, eofbit "
           "only at end of text, std::ws sets eofbit iff only blanks remain), std::string==literal by ghost "
           "classification, NTraits<T>::getNaN/getInfinity, <cctype> isspace/tolower tables. Trusted: CBMC 6.11, extractor rules."),
@@ -117,6 +121,11 @@ def main(ctx):
           replace=STREAM, cbmc_args=CHK, require_props=[r"postcondition"], function="consumedWholeString", timeout=300)
     J(cover_unit, "string.cover", [unit_c], "h_cover", expect_min=5, function="WF_STRING precondition")
     chars_jobs(ctx, J, chars_c)
+    try:
+        import part_c32_xml as PX          # XML writer, escaping side
+        PX.add_jobs(ctx, J)
+    except ExtractionError as e:
+        ctx.undecide("extraction (XML writer): %s" % e)
     parallel(jobs)
 
     ctx.trust("cbmc/goto-cc/goto-instrument 6.11.0 (C front end), MiniSat")
@@ -240,6 +249,9 @@ WITNESS = {
 
 
 def replay(ctx, ob):
+    if ob.unit.startswith("xml."):
+        import part_c32_xml as PX
+        return PX.replay(ctx, ob)
     m = re.match(r"string\.(tryConvertTo(Bool|Float|Double)|tryConvertStringTo_T|consumedWholeString)", ob.unit)
     if not m:
         if ob.unit.startswith("string.chars"):
